@@ -49,6 +49,12 @@ CHECKS = {
  "C19": dict(cat="exploration", tech="reference selection + pointer model compared per operation with two real gnosis.Keyper objects on identical in-memory databases; byte-equality between keypers",
    text="Two real Gnosis keypers with different identities and identical synced rows run histories of slot triggers (real triggerDecryption), keys messages received through the real DecryptionKeysHandler and sent through the real MessagingMiddleware, restarts and age increments over generated queues/pointer states; every requested identity list must equal the reference selection (slot identity first, queue order from the pointer, cumulative gas, at least one), both keypers must request byte-identical lists, and the pointer row must follow the reference model (p+k-1 with age 0; queue length when outdated/unknown).",
    note="Go toolchain; pgmem; gossipnet Gnosis node; refimpl.GnosisSelect / refimpl.Pointer; gnosis verif hooks", ref="§3 C19"),
+ "C15": dict(cat="fault_enumeration", tech="OnCommit invariant monitor (event table == canonical admissible events whenever the recorded position is canonical) on pgmem, over generated block trees on ethfake, with enumerated RPC/database fault placements from a census run",
+   text="The three real syncers (registry, multi-event, sequencer) sync generated block trees and head sequences (gaps, repeats, steps back, fork switches up to depth 10 incl. first new heads below synced+1, re-registration on the other fork, inadmissible events, a >10,000-block jump) through the generated bindings; the oracle runs at every commit and after every Sync; random fault placements plus systematic sweeps (every k-th RPC call / database round trip of a census run: error, crash before, crash after commit followed by a fresh syncer object).",
+   note="Go toolchain; pgmem (committed => durable; OnCommit under the engine lock); ethfake (chain fixed during one Sync call); admissibility recomputed by the harness", ref="§3 C15"),
+ "C16": dict(cat="exploration", tech="metamorphic partition comparison + reference fired-set oracle over the real MultiEventSyncer on ethfake/pgmem",
+   text="Generated chains with trigger registrations, expiries and matching/non-matching logs at every relative offset are synced under 6 partitions of the head sequence (block by block, one jump, random jumps, range limits 1..7, detour over an abandoned fork), each on its own database; every partition's fired set must equal the reference set computed from the chain alone, each recorded firing log must be a matching canonical log inside (registration block, expiry], and no trigger fires twice.",
+   note="Go toolchain; pgmem; ethfake; the reference in checks/c16 (chain-only computation)", ref="§3 C16"),
 }
 
 NOT_APPLICABLE = {
